@@ -123,7 +123,7 @@ def _pt(n):
             return _ALIASES[nm]
         simple = {'Int': INT, 'int': INT, 'Bool': BOOL, 'bool': BOOL, 'Real': REAL,
                   'float': REAL, 'Str': STR, 'str': STR, 'Bytes': BYTES, 'bytes': BYTES,
-                  'None': NONE, 'Any': ANY, 'Fn': FN, 'Kwargs': Ty('kwargs'), 'Args0': Ty('xtuple', (), '0'), 'Args1': Ty('xtuple', (), '1')}
+                  'None': NONE, 'Any': ANY, 'Fn': FN, 'Kwargs': Ty('kwargs'), 'Cls': TYPEOBJ, 'Args0': Ty('xtuple', (), '0'), 'Args1': Ty('xtuple', (), '1')}
         if nm in simple:
             return simple[nm]
         return TRef(nm)
